@@ -337,6 +337,10 @@ class AbstractHasAxes(AbstractHasMetadata):
                 lix = ix
                 ix = self.axes[dim].loc(lix, tol=tol)
 
+            # an empty list selects nothing (numpy makes it a float array, which it then refuses as an index)
+            if not isinstance(ix, slice) and not np.isscalar(ix) and np.size(ix) == 0 and np.asarray(ix).dtype.kind == 'f':
+                ix = np.zeros(0, dtype=int)
+
             # numpy rule: a singleton list does not collapse the axis
             if keepdims and np.isscalar(ix):
                 ix = [ix]
